@@ -45,13 +45,14 @@ class H2Script:
         self.rst = cfg.get("rst", 0)
         self.settings = list(cfg.get("settings", []))
         self.ping = cfg.get("ping", 0)
+        self.mfs = list(cfg.get("mfs", []))        # SETTINGS_MAX_FRAME_SIZE values the server may send (once each)
         self.wu = list(cfg.get("wu", []))          # [(target "conn"|"stream", increment)]
         self.wu_budget = cfg.get("wu_budget", 0)
         self.early_hdr = cfg.get("early_hdr", False)
         self.half = {}
 
     def _mc_state(self):
-        return ("h2script", self.goaway_budget, self.rst, tuple(self.settings), self.ping, self.wu_budget, sorted(self.half.items()))
+        return ("h2script", self.goaway_budget, self.rst, tuple(self.settings), tuple(self.mfs), self.ping, self.wu_budget, sorted(self.half.items()))
 
     def events(self):
         out = []
@@ -104,6 +105,12 @@ class H2Script:
                     conn.send_settings({3: k})
                 if conn.got_preface:
                     out.append((f"settings{k}@{ci}", st))
+            for k in list(self.mfs):
+                def mf(conn=conn, k=k):
+                    self.mfs.remove(k)
+                    conn.send_settings({5: k})
+                if conn.got_preface:
+                    out.append((f"maxframe{k}@{ci}", mf))
             if self.ping > 0 and conn.got_preface:
                 def pg(conn=conn):
                     self.ping -= 1
@@ -806,6 +813,12 @@ def scenarios(pid, tier):
                          h2script={"wu": [["stream", 70000]], "wu_budget": 2}, early=False))
             out.append(S(ct, [W, "up9:a", "up9:a"], max_connections=1, h2cfg=dict(manual, initial_window=4),
                          h2script={"wu": [["stream", 3], ["stream", 70000]], "wu_budget": 3}, early=False))
+            # the server lowers MAX_FRAME_SIZE while a large upload is parked on an exhausted window (and raises it in another run)
+            out.append(S(ct, [W, "up60000:a"], max_connections=1, h2cfg=dict(manual, initial_window=20000, max_frame=32768),
+                         h2script={"wu": [["stream", 70000], ["conn", 70000]], "wu_budget": 2, "mfs": [16384]}, early=False))
+            # a flow-control-stalled upload on a full pool while a request for another origin arrives: it waits, the upload finishes
+            out.append(S(ct, [W, "up9:a", "req:b"], max_connections=1, h2cfg=dict(manual, initial_window=4),
+                         h2script={"wu": [["stream", 70000]], "wu_budget": 1}, early=False))
             # body size exactly equal to the credit granted: END_STREAM must follow without further credit
             out.append(S(ct, [W, "up4:a"], max_connections=1, h2cfg=dict(manual, initial_window=4), h2script={"wu": [], "wu_budget": 0}, early=False))
             out.append(S(ct, [W, "up9:a"], max_connections=1, h2cfg=dict(manual, initial_window=4), h2script={"wu": [["stream", 5]], "wu_budget": 1}, early=False))
